@@ -7,7 +7,7 @@ Local Open Scope nat_scope.
 Lemma bad_child_is_table xlsx e : bad_child xlsx e = bad_child_table xlsx e.
 Proof.
   destruct e as [ | | | | |l r|l r|op l r|op l r|l r| | | | | | | | |a c|c|op l r|c|c| | | ];
-    try reflexivity; cbn [bad_child bad_child_table kind_of].
+    try reflexivity; unfold bad_child; cbn [bad_child_with bad_child_table kind_of stringify_policy pol_cmp_l pol_cmp_r pol_concat_l pol_concat_r pol_sum_l pol_sum_r pol_prod_l pol_prod_r pol_pow_l pol_pow_r pol_neg pol_pct pol_range_l pol_range_r pol_at pol_spill].
   all: try (destruct l; destruct r; destruct xlsx; reflexivity).
   all: try (destruct c; destruct xlsx; reflexivity).
   destruct op; destruct l; destruct r; destruct xlsx;
